@@ -10,6 +10,9 @@ REQUIRED_BRANCHES = [
     # build recipes that must have been exercised (driver branches, from the recipe line + the layout REACHED)
     "plain", "merge", "reopen", "backup", "offline", "v2", "noopt", "score-none", "multisearch",
     "merged-segment", "pending-deletions", "empty-corpus", "exact-order",
+    # a merge introduced BEHIND a surviving, non-merged segment that has pending deletions, searched on that very
+    # root (introduceMerge computes the offsets of such a root itself; any later batch recomputes them)
+    "tail-merge", "merge-behind-deletions", "phys:merge-behind-deletions",
     # harness distribution: layouts really reached
     "phys:merged-segment", "phys:multi-segment", "phys:pending-deletions",
     # the physical-level stream of the rewrites
